@@ -529,6 +529,9 @@ class TermEngine:
             if "val" in op:
                 return ("const", op["ty"], op["val"])
             if "uneval" in op:
+                if "ptxt" in op and "val" not in op:
+                    # a promoted constant wrapping one literal: the literal itself (references are transparent in terms)
+                    return ("const", op["ty"].lstrip("&"), op["ptxt"])
                 return ("constitem", norm(op["uneval"]), op.get("val"))
             return ("const", op["ty"], op.get("txt", "?"))
         return TOP
